@@ -306,6 +306,137 @@ const NOISE: &[&str] = &[
     "---@class Z: Z, A, Z\n", "---@alias M {[M]: M}\n", "---@type fun(): fun(): fun(): Rec\n", "\0", "---@overload fun(\n", "a[a][a]", "#", "..",
 ];
 
+/// minimised past failures and the shapes named in the property (replayed first, both configurations)
+pub const CORPUS: &[&str] = &[
+    "x[---@alias Al A|B\n",
+    "local t = {}\nt[---@type A\n1] = 2\n",
+    // mutually recursive aliases through unions: `remove_type` (narrowing)
+    "---@alias U1 U2|string\n---@alias U2 U1|number\n---@type U1\nlocal x\nif x then local y = x end\nif x ~= nil then local z = x end\n",
+    // generic recursive alias whose argument grows: member access
+    "---@alias GA<T> GA<T[]>|nil\n---@type GA<string>\nlocal x\nlocal y = x.foo\n",
+    // mutually recursive generic aliases
+    "---@alias M1<T> M2<T>|T\n---@alias M2<T> M1<T[]>|nil\n---@type M1<string>\nlocal x\nlocal y = x.foo\n---@type string\nlocal s = x\n",
+    // dense multi-super inheritance cycle, missing field
+    "---@class KA: KX, KB, KC\n---@class KB: KY, KC, KA\n---@class KC: KZ, KA, KB\n---@class KX: KB\n---@class KY: KC\n---@class KZ: KA\n---@type KA\nlocal k\nlocal m = k.missing\nk.other = 1\n",
+    // tuple pattern with fixed elements and a variadic template, shorter / longer argument tuples
+    "---@generic T, U\n---@param t [T, string, U...]\n---@return T\nlocal function rest(t) end\nlocal r1 = rest({1})\nlocal r2 = rest({1, 'a'})\nlocal r3 = rest({1, 'a', 2, 3})\nlocal r4 = rest({})\n",
+];
+
+const ALIAS_DEFS: &[(&str, &str)] = &[
+    // (definitions, a type expression naming the alias)
+    ("---@alias U1 U2|string\n---@alias U2 U1|number\n", "U1"),
+    ("---@alias V1 V2|V3\n---@alias V2 V3|V1|nil\n---@alias V3 V1|V2|boolean\n", "V2"),
+    ("---@alias W1 W1[]|W1?\n", "W1"),
+    ("---@alias GA<T> GA<T[]>|nil\n", "GA<string>"),
+    ("---@alias GB<T> GB<table<string, T>>|T\n", "GB<integer>"),
+    ("---@alias M1<T> M2<T>|T\n---@alias M2<T> M1<T[]>|nil\n", "M1<string>"),
+    ("---@alias GS<T> GS<T>|T\n", "GS<number>"),
+    ("---@class Box<T>\n---@field v T\n---@alias GX<T> Box<GX<T[]>>|nil\n", "GX<string>"),
+    ("---@alias GP<A, B> GP<B, A[]>|A\n", "GP<string, integer>"),
+    ("---@alias Cd<T> T extends string and Cd<T[]> or nil\n", "Cd<string>"),
+    ("---@alias Mp<T> { [K in keyof T]: Mp<T[K]> }\n---@class MpSrc\n---@field a MpSrc\n", "Mp<MpSrc>"),
+    ("---@alias Fn<T> fun(x: Fn<T[]>): Fn<T>\n", "Fn<string>"),
+    ("---@alias Tu<T> [T, Tu<T[]>?]\n", "Tu<integer>"),
+    ("---@alias Ob<T> {next: Ob<T[]>?, v: T}\n", "Ob<string>"),
+];
+
+const ALIAS_USES: &[&str] = &[
+    "local a1 = x.foo\n",
+    "local a2 = x.foo.bar[1]\n",
+    "local a3 = x[1]\n",
+    "local a4 = x()\n",
+    "local a5 = x:m(1)\n",
+    "---@type string\nlocal s1 = x\n",
+    "---@type X\nlocal s2 = 'str'\n",
+    "---@type X\nlocal s3 = {}\n",
+    "---@type X[]\nlocal s4 = { x }\n",
+    "if x then local b1 = x end\n",
+    "if not x then local b2 = x end\n",
+    "if x ~= nil then local b3 = x.foo end\n",
+    "if type(x) == 'string' then local b4 = x else local b5 = x end\n",
+    "if type(x) == 'table' then local b6 = x[1] end\n",
+    "x = x or 1\n",
+    "local c1 = x and x.foo or nil\n",
+    "---@param p X\n---@return X\nlocal function f(p) return p end\nlocal r = f(x)\nlocal r2 = f(r)\n",
+    "---@generic T\n---@param p T\n---@return T[]\nlocal function g(p) return { p } end\nlocal gr = g(x)\n",
+    "for k, v in pairs(x) do local d1 = v end\n",
+    "for i, v in ipairs(x) do local d2 = v end\n",
+    "local e1 = #x\n",
+    "local e2 = x .. ''\n",
+    "local e3 = x + 1\n",
+    "local e4 = x == x\n",
+    "---@cast x string\nlocal h1 = x\n",
+    "---@cast x -nil\nlocal h2 = x\n",
+    "---@class Holder\n---@field f X\nlocal holder = {}\nholder.f = x\nlocal h3 = holder.f.foo\n",
+    "local t = { a = x }\nlocal h4 = t.a.foo\n",
+    "x.foo = 1\n",
+    "return x\n",
+];
+
+fn dense_cycle(rng: &mut Rng) -> String {
+    // every class lists 1-3 supers drawn from all classes (itself included): dense cyclic inheritance
+    let n = rng.range(3, 7);
+    let names: Vec<String> = (0..n).map(|i| format!("K{i}")).collect();
+    let mut s = String::new();
+    for i in 0..n {
+        let k = rng.range(1, 3);
+        let mut sup: Vec<String> = Vec::new();
+        for _ in 0..k {
+            let j = rng.below(n);
+            if !sup.contains(&names[j]) {
+                sup.push(names[j].clone());
+            }
+        }
+        s.push_str(&format!("---@class {}: {}\n", names[i], sup.join(", ")));
+        if rng.chance(1, 3) {
+            s.push_str(&format!("---@field f{i} {}\n", names[rng.below(n)]));
+        }
+    }
+    let c = &names[rng.below(n)];
+    s.push_str(&format!("---@type {c}\nlocal k\nlocal m = k.missing\nlocal m2 = k.f0\nk.other = 1\nlocal m3 = k:nomethod()\n---@type {}\nlocal k2 = k\n", names[rng.below(n)]));
+    s
+}
+
+fn tuple_tpl(rng: &mut Rng) -> String {
+    let fixed = rng.range(1, 3);
+    let mut elems: Vec<String> = Vec::new();
+    for i in 0..fixed {
+        elems.push(if i == 0 { "T".to_string() } else { (*rng.pick(&["string", "integer", "T"])).to_string() });
+    }
+    elems.push("U...".to_string());
+    let mut s = format!("---@generic T, U\n---@param t [{}]\n---@return T, U\nlocal function rest(t) end\n", elems.join(", "));
+    for k in 0..rng.range(2, 5) {
+        let len = rng.below(6);
+        let items: Vec<&str> = (0..len).map(|_| *rng.pick(&["1", "'a'", "true", "{}", "nil"])).collect();
+        s.push_str(&format!("local q{k} = rest({{{}}})\n", items.join(", ")));
+    }
+    s.push_str("---@type [integer]\nlocal short\nlocal q9 = rest(short)\n");
+    s
+}
+
+/// programs around recursive (generic) aliases, dense inheritance cycles and tuple templates
+pub fn gen_alias_program(rng: &mut Rng) -> String {
+    match rng.below(8) {
+        0 => return dense_cycle(rng),
+        1 => return tuple_tpl(rng),
+        _ => {}
+    }
+    let (defs, ty) = *rng.pick(ALIAS_DEFS);
+    let mut s = String::from(defs);
+    if rng.chance(1, 4) {
+        let (defs2, _) = *rng.pick(ALIAS_DEFS);
+        if defs2 != defs {
+            s.push_str(defs2);
+        }
+    }
+    s.push_str(&format!("---@type {ty}\nlocal x\n"));
+    let n = rng.range(1, 5);
+    for _ in 0..n {
+        s.push_str(&rng.pick(ALIAS_USES).replace("X", ty));
+    }
+    s
+}
+
 pub fn gen_program(rng: &mut Rng) -> String {
     let n = rng.range(3, 14);
     let mut parts: Vec<String> = (0..n).map(|_| rng.pick(FRAGMENTS).to_string()).collect();
@@ -373,7 +504,12 @@ fn run_pipeline(text: &str, config: usize) -> usize {
     let Some(sm) = ws.analysis.compilation.get_semantic_model(file_id) else { return 0 };
     for el in root.syntax().descendants_with_tokens() {
         if let Some(tok) = el.into_token() {
-            let _ = sm.get_semantic_info(tok.into());
+            if let Some(info) = sm.get_semantic_info(tok.into()) {
+                // hover / completion labels render the type
+                let db = ws.analysis.compilation.get_db();
+                let _ = emmylua_code_analysis::humanize_type(db, &info.typ, emmylua_code_analysis::RenderLevel::Documentation);
+                let _ = emmylua_code_analysis::humanize_type(db, &info.typ, emmylua_code_analysis::RenderLevel::Simple);
+            }
             n += 1;
         }
     }
@@ -616,10 +752,12 @@ pub fn run(args: &Args, report: &mut Report) {
             items.push((t.to_string(), v["input"]["config"].as_u64().unwrap_or(0) as usize));
         }
     } else {
-        items.push(("x[---@alias Al A|B\n".to_string(), 0));
-        items.push(("local t = {}\nt[---@type A\n1] = 2\n".to_string(), 0));
-        for _ in 0..n_prog {
-            let t = gen_program(&mut rng);
+        for c in CORPUS {
+            items.push((c.to_string(), 0));
+            items.push((c.to_string(), 1));
+        }
+        for k in 0..n_prog {
+            let t = if k % 2 == 0 { gen_program(&mut rng) } else { gen_alias_program(&mut rng) };
             items.push((t.clone(), 0));
             items.push((t, 1));
         }
